@@ -4,10 +4,10 @@
 From IV Require Import Base.Bytes Base.BytesFacts Model.Policy Model.Smtp Model.Dot Model.SmtpWire Proofs.SmtpInv Proofs.SmtpThms Proofs.DotCodec Proofs.SmtpCut.
 From Coq Require Import ZifyBool ZifyNat ZifyN Lia.
 
-Lemma next_item_fits c o s w : Inv c s -> tls_enabled c = false -> st s <> QUIT ->
+Lemma next_item_fits c o s w : Inv c s -> st s <> QUIT ->
   exists s' r d, step c s (fst (next_item o s w)) = Ok s' r d.
 Proof.
-  intros HI Ht Hq. unfold next_item.
+  intros HI Hq. unfold next_item.
   destruct (sstate_eqb (st s) DATA) eqn:Ed.
   - assert (Es : st s = DATA) by (destruct (st s); try discriminate; reflexivity). rewrite Es.
     destruct (dec BeginLine w) as [[b r]|]; cbn [fst]; apply progress_data; assumption.
@@ -24,15 +24,15 @@ Qed.
 
 (** The loop over any byte stream ends with the session closed: nothing wedges it. *)
 Theorem bytes_never_stuck : forall f c o s w,
-  Inv c s -> tls_enabled c = false -> (length w + 2 <= f)%nat ->
+  Inv c s -> (length w + 2 <= f)%nat ->
   st (snd (run_stream f c o s w)) = QUIT.
 Proof.
-  induction f as [|f IH]; intros c o s w HI Ht Hf; [lia|].
+  induction f as [|f IH]; intros c o s w HI Hf; [lia|].
   cbn [run_stream].
   destruct (sstate_eqb (st s) QUIT) eqn:Eq.
   - assert (Es : st s = QUIT) by (destruct (st s); try discriminate; reflexivity). rewrite Es. exact Es.
   - assert (Hq : st s <> QUIT) by (intro E; rewrite E in Eq; discriminate).
-    destruct (next_item_fits c o s w HI Ht Hq) as (s' & r & d & E).
+    destruct (next_item_fits c o s w HI Hq) as (s' & r & d & E).
     assert (Goal : st (snd (let '(it, rest) := next_item o s w in
                              match step c s it with
                              | Ok s'0 r0 d0 => let '(its, tr, sf) := run_stream f c o s'0 rest in (it :: its, (it, r0, d0) :: tr, sf)
@@ -44,14 +44,14 @@ Proof.
       - assert (Q : st s' = QUIT) by (eapply next_item_nil_quits; rewrite N; exact E).
         rewrite (run_stream_quit f c o s' rest Q). exact Q.
       - pose proof (next_item_shorter o s (b :: w) ltac:(discriminate)) as Hs. rewrite N in Hs. cbn [snd] in Hs.
-        specialize (IH c o s' rest HI' Ht ltac:(cbn [length] in *; lia)).
+        specialize (IH c o s' rest HI' ltac:(cbn [length] in *; lia)).
         destruct (run_stream f c o s' rest) as [[its tr] sf]. exact IH. }
     destruct (st s); try congruence; exact Goal.
 Qed.
 
-Theorem bytes_session_always_ends : forall c o w, tls_enabled c = false ->
+Theorem bytes_session_always_ends : forall c o w,
   st (snd (run_bytes c o w)) = QUIT.
-Proof. intros c o w Ht. unfold run_bytes. apply bytes_never_stuck; [apply inv_init|exact Ht|lia]. Qed.
+Proof. intros c o w. unfold run_bytes. apply bytes_never_stuck; [apply inv_init|lia]. Qed.
 
 (** Reply and size rules on the transcript of every byte stream. *)
 Theorem bytes_one_reply_per_line : forall c o w,
